@@ -446,6 +446,219 @@ theorem nonNegB_spec (evs : List Ev) (h : nonNegB evs = true) : NonNeg evs := by
     | cpTick => exact ih h.2
     | done => exact ih h.2
 
+
+/-! ### the configuration's `startDbId` only matters for the initial select -/
+
+theorem parseStep_setDb (c : PCfg) (d : Int) (s : PState) (r : Raw) :
+    parseStep { c with startDbId := d } s r = parseStep c s r := rfl
+
+theorem parseAll_setDb (c : PCfg) (d : Int) (s : PState) (raws : List Raw) :
+    parseAll { c with startDbId := d } s raws = parseAll c s raws := by
+  induction raws generalizing s with
+  | nil => rfl
+  | cons r rest ih => simp only [parseAll, parseStep_setDb, ih]
+
+theorem parseState_setDb (c : PCfg) (d : Int) (s : PState) (raws : List Raw) :
+    parseState { c with startDbId := d } s raws = parseState c s raws := by
+  induction raws generalizing s with
+  | nil => rfl
+  | cons r rest ih => simp only [parseState, parseStep_setDb, ih]
+
+theorem parseFails_setDb (c : PCfg) (d : Int) (s : PState) (raws : List Raw) :
+    parseFails { c with startDbId := d } s raws = parseFails c s raws := by
+  induction raws generalizing s with
+  | nil => rfl
+  | cons r rest ih => simp only [parseFails, parseStep_setDb, ih]
+
+theorem specStream_setDb (c : PCfg) (d : Int) (b : Bool) (cur : Int) (raws : List Raw) :
+    specStream { c with startDbId := d } b cur raws = specStream c b cur raws := by
+  induction raws generalizing b cur with
+  | nil => rfl
+  | cons r rest ih => unfold specStream; simp only [ih]; rfl
+
+theorem mapDb_setDb (c : PCfg) (d : Int) (n : Int) : mapDb { c with startDbId := d } n = mapDb c n := rfl
+
+theorem parserItems_append (c : PCfg) (o : Int) (x y : List Raw)
+    (h : parseFails c { lastSent := o } x = false) :
+    parserItems c o (x ++ y) = parserItems c o x ++ parseAll c (parseState c { lastSent := o } x) y := by
+  unfold parserItems
+  rw [parseAll_append c _ x y h, List.append_assoc]
+
+/-- a new connection executing a resumed parser's items is the connection in the
+    resume database executing the parser's items -/
+theorem seq_parserItems (c : PCfg) (d o : Int) (hd : 0 ≤ d) (R : List Raw) :
+    seqApplied 0 (itemCmds (parserItems { c with startDbId := d } o R)) =
+      seqApplied d (itemCmds (parseAll c { lastSent := o } R)) := by
+  unfold parserItems
+  rw [parseAll_setDb]
+  by_cases hpos : d > 0
+  · simp only [hpos, ↓reduceIte]
+    have hnb : itemCmds.isBracketOrPingB bSelect = false := by decide
+    rw [List.singleton_append, itemCmds_cons_data _ _ (by simpa [selectItem] using hnb)]
+    simp only [selectItem, seqApplied, ↓reduceIte]
+    have hsa : selArg 0 [intToDec d] = d := by simp [selArg, atoi?_intToDec]
+    rw [hsa]
+  · have hz : d = 0 := by omega
+    subst hz
+    simp
+
+/-- forwarded commands of a resumed parser's items for commands ending at or
+    before `o` end at or before `o` (the initial select carries the start offset) -/
+theorem itemCmdsO_parserItems_le (c : PCfg) (start o : Int) (A : List Raw) (hso : start ≤ o)
+    (hA : ∀ r ∈ A, r.off ≤ o) : ∀ x ∈ itemCmdsO (parserItems c start A), x.2.2 ≤ o := by
+  intro x hx
+  unfold parserItems at hx
+  rw [itemCmdsO_append] at hx
+  rcases List.mem_append.mp hx with h | h
+  · split at h
+    · have hnb : itemCmds.isBracketOrPingB bSelect = false := by decide
+      simp only [itemCmdsO, List.filterMap_cons, List.filterMap_nil, selectItem, hnb,
+        Bool.false_eq_true, ↓reduceIte, List.mem_singleton] at h
+      rw [h]; exact hso
+    · simp [itemCmdsO] at h
+  · obtain ⟨r, hr, hxr⟩ := itemCmdsO_own c _ A x h
+    have := hA r hr; omega
+
+/-- the split of a request list at its LAST position write is unique -/
+theorem last_cp_unique {E1 E2 E1' E2' : List Req} {o o' : Int}
+    (h : E1 ++ Req.cpOffset o :: E2 = E1' ++ Req.cpOffset o' :: E2')
+    (h2 : cpOffsetsB E2 = []) (h2' : cpOffsetsB E2' = []) : E1 = E1' ∧ o = o' ∧ E2 = E2' := by
+  induction E1 generalizing E1' with
+  | nil =>
+    cases E1' with
+    | nil =>
+      simp only [List.nil_append, List.cons.injEq, Req.cpOffset.injEq] at h
+      exact ⟨rfl, h.1, h.2⟩
+    | cons y E1'' =>
+      exfalso
+      simp only [List.nil_append, List.cons_append, List.cons.injEq] at h
+      have : o' ∈ cpOffsetsB E2 := by
+        rw [h.2, cpOffsetsB_append]; apply List.mem_append_right; simp [cpOffsetsB, cpOfReq]
+      rw [h2] at this; cases this
+  | cons x E1r ih =>
+    cases E1' with
+    | nil =>
+      exfalso
+      simp only [List.nil_append, List.cons_append, List.cons.injEq] at h
+      have : o ∈ cpOffsetsB E2' := by
+        rw [← h.2, cpOffsetsB_append]; apply List.mem_append_right; simp [cpOffsetsB, cpOfReq]
+      rw [h2'] at this; cases this
+    | cons y E1r' =>
+      simp only [List.cons_append, List.cons.injEq] at h
+      obtain ⟨h1, h3, h4⟩ := ih h.2
+      exact ⟨by rw [h.1, h1], h3, h4⟩
+
+
+/-! ### a parser failure is a property of the command, not of the parser state -/
+
+/-- a SELECT the parser cannot read: not exactly one argument, or not a number -/
+def badSelect (r : Raw) : Bool :=
+  decide (r.cmd = bSelect) &&
+    (match r.args with
+     | [a] => (atoi? a).isNone
+     | _ => true)
+
+theorem parseStep_fail_iff (c : PCfg) (s : PState) (r : Raw) :
+    ((parseStep c s r).2 = POut.fail) ↔ badSelect r = true := by
+  by_cases hp : r.cmd = bPing
+  · have hne : bPing ≠ bSelect := by decide
+    unfold parseStep badSelect
+    simp only [hp, ↓reduceIte, hne, decide_false, Bool.false_and, Bool.false_eq_true, iff_false]
+    cases c.filterCmdKey bPing r.args with
+    | none => simp
+    | some a => cases s.bypass <;> simp
+  · by_cases hs : r.cmd = bSelect
+    · have hne : bSelect ≠ bPing := by decide
+      unfold parseStep badSelect
+      simp only [hs, hne, ↓reduceIte, decide_true, Bool.true_and]
+      cases ha : r.args with
+      | nil => simp
+      | cons a rest =>
+        cases rest with
+        | cons _ _ => simp
+        | nil =>
+          simp only
+          cases hn : atoi? a with
+          | none => simp
+          | some n =>
+            simp only [Option.isNone_some, Bool.false_eq_true, iff_false]
+            cases c.filterDb n
+            · simp only [Bool.false_eq_true, ↓reduceIte]
+              cases c.filterCmdKey bSelect [a] with
+              | none => simp
+              | some x =>
+                simp only
+                by_cases h0 : n ≥ 0
+                · simp only [h0, ↓reduceIte]
+                  cases (selectDB c s.currentDB n).2 <;> simp
+                · simp [h0]
+            · simp
+    · rw [parseStep_data c s r hp hs]
+      unfold badSelect
+      simp only [hs, decide_false, Bool.false_and, Bool.false_eq_true, iff_false]
+      by_cases h1 : c.filterCmd r.cmd = true
+      · simp [h1]
+      · by_cases h2 : r.cmd = bPublish ∧ (r.args.head?.map lower) = some bSentinelHello
+        · simp [h1, h2]
+        · by_cases h3 : s.bypass = true ∧ passBracket s r.cmd = false
+          · simp [h1, h2, h3]
+          · simp only [h1, h2, h3, Bool.false_eq_true, ↓reduceIte]
+            cases c.filterCmdKey r.cmd r.args <;> simp
+
+theorem parseFails_eq_any (c : PCfg) (s : PState) (raws : List Raw) :
+    parseFails c s raws = raws.any badSelect := by
+  induction raws generalizing s with
+  | nil => rfl
+  | cons r rest ih =>
+    simp only [parseFails, List.any_cons]
+    have hiff := parseStep_fail_iff c s r
+    cases hps : parseStep c s r with
+    | mk s' o =>
+      rw [hps] at hiff
+      cases o with
+      | fail =>
+        have : badSelect r = true := hiff.mp rfl
+        simp [this]
+      | skip =>
+        have : badSelect r = false := by
+          cases hb : badSelect r with
+          | false => rfl
+          | true => have := hiff.mpr hb; cases this
+        simp only [this, Bool.false_or]; exact ih s'
+      | emit i =>
+        have : badSelect r = false := by
+          cases hb : badSelect r with
+          | false => rfl
+          | true => have := hiff.mpr hb; cases this
+        simp only [this, Bool.false_or]; exact ih s'
+
+/-- a stream the parser reads without failure is read without failure from any
+    state, and so is every part of it -/
+theorem parseFails_sublist (c : PCfg) (s s' : PState) {x y : List Raw} (h : List.Sublist y x)
+    (hx : parseFails c s x = false) : parseFails c s' y = false := by
+  rw [parseFails_eq_any] at hx ⊢
+  cases hy : y.any badSelect with
+  | false => rfl
+  | true =>
+    obtain ⟨r, hr, hb⟩ := List.any_eq_true.mp hy
+    have : x.any badSelect = true := List.any_eq_true.mpr ⟨r, h.subset hr, hb⟩
+    rw [hx] at this; cases this
+
+theorem dataB_stripB (b : Batch) (h : WFBatch b) : dataB (stripB b) = dataB b := by
+  obtain ⟨body, _, hs, hsh⟩ := stripB_wf b h
+  rw [hs]
+  rcases hsh with e | e
+  · rw [e]
+  · rw [e]; simp [dataB, cmdOfReq, List.filterMap_append, List.filterMap]
+
+theorem dataB_bodies (out : List Batch) (hwf : AllWF out) : dataB (bodies out) = dataOut out := by
+  induction out with
+  | nil => rfl
+  | cons b rest ih =>
+    simp only [bodies, List.flatMap_cons, dataOut, dataB_append] at ih ⊢
+    rw [dataB_stripB b (hwf b (List.mem_cons_self ..)),
+      ih (fun x hx => hwf x (List.mem_cons_of_mem _ hx))]
+
 /-- every request of the stripped wire is plain -/
 theorem bodies_plain (out : List Batch) (hwf : AllWF out) : ∀ r ∈ bodies out, Plain r = true := by
   intro r hr
